@@ -242,15 +242,25 @@ package ledger
 //@   modifies writes
 //@   ensures forall h Store :: {writes[h]} {old(writes)[h]} h != store ==> writes[h] == old(writes)[h]
 
+//@ ghost parseCalls int
+//@ ghost lastParsed string
+//@ assumed func (p NumscriptParser) Parse(script string) (r NumscriptRuntime, err error)
+//@   modifies parseCalls, lastParsed
+//@   ensures parseCalls == old(parseCalls) + 1 && lastParsed == script
+
 //@ func (ctrl *DefaultController) createTransaction(ctx context.Context, store Store, schema *ledger.Schema, parameters Parameters[CreateTransaction]) (r *ledger.CreatedTransaction, err error)
 //@   property C07 C08 C28 C29
-//@   modifies writes
+//@   modifies writes, parseCalls, lastParsed
 //@   ensures forall h Store :: {writes[h]} {old(writes)[h]} h != store ==> writes[h] == old(writes)[h]
 //@   ensures err == nil ==> r != nil
 //@   ensures schema != nil && len(schema.Transactions) > 0 && parameters.Input.Template == "" && ctrl.schemaEnforcementMode == "strict" ==> isErr(err, ErrSchemaValidationError) && writes == old(writes)
 //@   ensures schema != nil && len(schema.Transactions) > 0 && !has(schema.Transactions, parameters.Input.Template) ==> isErr(err, ErrSchemaValidationError) && writes == old(writes)
 //@   ensures (schema == nil || len(schema.Transactions) == 0) && parameters.Input.Template != "" ==> isErr(err, ErrSchemaValidationError) && writes == old(writes)
 //@   ensures err == nil ==> r.Transaction.Template == parameters.Input.Template
+//@   ensures schema != nil && len(schema.Transactions) > 0 && parameters.Input.Template == "" && ctrl.schemaEnforcementMode != "strict" ==> parseCalls == old(parseCalls) + 1 && lastParsed == parameters.Input.Plain
+//@   ensures schema != nil && parameters.Input.Template != "" && has(schema.Transactions, parameters.Input.Template) ==> parseCalls == old(parseCalls) + 1 && lastParsed == schema.Transactions[parameters.Input.Template].Script
+//@   ensures (schema == nil || len(schema.Transactions) == 0) && parameters.Input.Template == "" ==> parseCalls == old(parseCalls) + 1 && lastParsed == parameters.Input.Plain
+//@   note C29 (from the property statement): audit mode accepts a template-less write (the caller's script is compiled and run); a write naming a template runs the template's script, never the caller's
 //@   note C29: strict mode rejects a template-less write on a schema with templates, an unknown template is rejected in either mode, a template without template definitions is rejected; all before any store write
 //@   loop 3:
 //@     invariant accountMetadata[account] != nil
